@@ -172,6 +172,18 @@ func (x *X) StartMicro() *simrt.Sched {
 
 const microIdleBudget = 6 * time.Hour // virtual
 
+// EnableStalls turns on the stall fault of the micro scheduler for this run: at each
+// scheduling step, with probability 1/denom and at most budget times, one enabled task is
+// descheduled for one of the given spans of virtual time (a goroutine that lost the CPU in
+// the middle of an operation while timers fire and the others go on).
+func (x *X) EnableStalls(denom, budget int, durs ...time.Duration) {
+	x.S.StallDenom, x.S.StallBudget, x.S.StallDurs = denom, budget, durs
+	x.S.OnStall = func(task, site string, d time.Duration) {
+		x.Fault("task-stall")
+		x.Logf("stall %s at %s for %v (t=%v)", task, site, d, x.Now())
+	}
+}
+
 // schedErr is called when the scheduler reports deadlock / no-progress.
 func (x *X) schedErr(e *simrt.SchedError, onErr func(*simrt.SchedError)) {
 	x.dead = true
